@@ -23,7 +23,7 @@ RULE = ("input charts from three kinds of source: (1) ~72% built through the lis
         "and empty columns, empty hit or hold lists, gap/threshold >= 0 incl. 0, rows shuffled, StepMania mines/fakes/lifts/"
         "keysounds/rolls between / on the notes, every list built in one of five ways (float64 / int64 frames, from_dict of column "
         "lists / row dicts with Python ints, item objects) with int-typed lists next to fractional gaps and times, hit lists that "
-        "carry undeclared columns (a stray `length` with values or NaN, `index`, `foo`); (2) ~28% read by the REAL readers from "
+        "carry undeclared columns (`index`, `foo`, a stray all-NaN `length`; at a low rate a stray `length` with values — outside the domain, correspondence only); (2) ~28% read by the REAL readers from "
         "generated osu texts, .qua documents (incl. explicit `EndTime: 0` and omitted keys), .sm texts, BMS lines and OJN bytes "
         "(the text/byte generators of harness/props/c01, c06, c02, c04, c07 are reused); (3) ~22% of all charts additionally go "
         "through `rate` or one of the 16 converters before full_ln.  The kind of a note is the list it lives in; the input rows are "
@@ -283,7 +283,7 @@ def load_chart(case):
 def chart_rows(m):
     """(rows of the further note lists, hits, holds) of a chart; kind of a note = the list it lives in.
     A hit row is (offset, column, stray) where stray = the value of a `length` column the hit list may carry
-    (None when absent / NaN) — the property does not look at it, the code does (D46)."""
+    (None when absent / NaN) — the property does not look at it, the code does (domain hypothesis of the theorems)."""
     import numpy as np
     try:
         hd = m.hits.df
@@ -508,7 +508,7 @@ def run(case, drv):
         tags.append("stray-length")
     if not inp:
         tags.append("empty")
-    dom = not stray
+    dom = not stray          # the theorems' domain hypothesis
     if impl_err is not None:
         tags.append("impl-raises")
         # the property promises a result for every chart, and the model never raises
@@ -552,15 +552,14 @@ def run(case, drv):
         tags.append("float-boundary")
     else:
         ok = sp["spec"] and sp["conservation"] and sp["no_overlap"] and others_ok and bad is None
-    kf = None
+    # DOMAIN hypothesis of the theorems (∀ r ∈ hits, r.length = none): a hit list that the test itself built with a non-NaN
+    # stray `length` column is not a chart the property quantifies over (the library's constructors, readers and converters
+    # never produce one) — such a case is a correspondence-only case: the specification is not evaluated.
+    # A hit list with a length that comes out of a READER is not excused: it is judged like any other chart.
     built_stray = via == "api" and any(len(h) > 2 and h[2] is not None for h in case["hits"])
-    if not ok and stray and built_stray and bad is None and others_ok:
-        # D46: a user-built hit list with a non-NaN `length` column (rate keeps such a column) — the output follows the
-        # rule for the frame as the loop sees it.  No reader or converter of the unchanged tree produces such a list: a
-        # chart that comes out of a reader and fails is a violation, never this finding.
-        sp2 = drv.call("c17.spec", gap=R(gap), thr=R(thr), inp=[jrow(r) for r in seen], out=[jrow(r) for r in out_new_s])["ok"]
-        if (sp2["spec"] or boundary) and sp2["conservation"]:
-            kf = "D46"
+    if stray and built_stray:
+        ok = others_ok and bad is None
+        tags.append("corr-only")
     # ---- (C) correspondence with the model
     agree = "ok" in mo
     maxdev = 0.0
@@ -596,7 +595,7 @@ def run(case, drv):
                       input_hits=[str(x) for x in hits_s[:30]], input_holds=[str(x) for x in holds[:30]],
                       impl_hits=[str(x) for x in r_hits[:40]], impl_holds=[str(x) for x in r_holds[:40]],
                       impl_extras=[str(x) for x in r_extras[:20]], model=mo)
-    return dict(claim="full_ln", ok=ok, agree=agree, dom=dom, kf=kf, tags=tags, nontrivial=nontrivial, maxdev=maxdev,
+    return dict(claim="full_ln", ok=ok, agree=agree, dom=dom, kf=None, tags=tags, nontrivial=nontrivial, maxdev=maxdev,
                 boundary=boundary, detail=detail)
 
 
@@ -816,13 +815,15 @@ def gen(rng, tier, i):
         case = gen_read(rng, tier)
     else:
         case = gen_api(rng, tier, i)
-        if rng.random() < 0.12 and case["hits"]:
-            # a hit list that carries a stray `length` column (all rows, or some NaN), and/or other undeclared columns
+        rs = rng.random()
+        if rs < 0.10 and case["hits"]:
+            # a hit list that carries an undeclared `length` column full of NaN: inside the domain
+            case["hits"] = [h + [None] for h in case["hits"]]
+        elif rs < 0.125 and case["hits"]:
+            # outside the domain (correspondence only): non-NaN values in that column
             allrows = rng.random() < 0.5
             val = lambda: R(Fr(rng.choice([0, 0, 1, 50, 1000])))
             case["hits"] = [h + [val() if (allrows or rng.random() < 0.5) else None] for h in case["hits"]]
-            b = case.get("build") or {}
-            case["mode"] = case["mode"]
         if rng.random() < 0.15:
             case["xcols"] = {k: rng.choice([["index"], ["foo"], ["index", "foo"]]) for k in rng.choice([["hits"], ["holds"], ["hits", "holds"]])}
     if rng.random() < 0.22:
@@ -870,10 +871,11 @@ def corpus():
         c.append(_c("base", 10.5, 100, [(0, 0), (500, 0)], [], build=dict(hits=b, holds=b)))                 # -> hold 489.5
         c.append(_c("osu", 10.5, 100, [(0.5, 0), (700.5, 0)], [(300, 0, 50), (2000, 0, 10)], build=dict(hits="frame", holds=b)))
         c.append(_c("sm", 0.25, 0, [(0, 1), (100, 1), (250, 1)], [(50, 1, 7), (400, 1, 9)], build=dict(hits=b, holds=b)))
-    # a hit list that carries a stray `length` column (D46), and undeclared columns that must not matter
+    # undeclared columns that must not matter; a stray `length` column (NaN: in the domain; values: correspondence only)
     c.append(_c("base", G, T, [(0, 0), (500, 0)], [], xcols=dict(hits=["index", "foo"])))
     c.append(_c("osu", G, T, [(0, 0), (500, 0)], [(100, 1, 5)], xcols=dict(hits=["foo"], holds=["index"])))
-    c.append(_c("base", G, T, [(0, 0, 0), (500, 0, 0)], []))                          # D46 witness shape
+    c.append(_c("base", G, T, [(0, 0, 0), (500, 0, 0)], []))                          # outside the domain: correspondence only
+    c.append(_c("osu", G, T, [(0, 0, None), (500, 0, None), (100, 1, None)], [(700, 0, 20)]))      # all-NaN stray column: in the domain
     c.append(_c("sm", 0, 0, [(0, 0, None), (500, 0, 7), (900, 0, None)], [(100, 0, 20)], xcols=dict(hits=["index"])))
     # a Quaver document whose plain notes carry an explicit `EndTime: 0` / omit keys, through QuaMap.read
     qdoc = dict(AudioFile="a.mp3", Mode="Keys4",
